@@ -198,6 +198,7 @@ def gen_world(rng, tier):
         "helpers_per_call": r.choice([[1], [1, 2], [1, 2, 3], [2, 3]]),
         "reuse_rate": r.choice([0, 0.3, 0.6]),
         "two_columns": r.choice([0, 0, 0.5]),
+        "poison_rate": r.choice([0, 0, 0.2]),
         "toggle_rate": r.choice([0, 0, 0.15]),
         "nlifetimes": r.choice([1, 2, 2, 3]),
         "fault_world": r.random() < 0.55,
@@ -226,6 +227,17 @@ def gen_world(rng, tier):
                                                     "torn_data"])}
         ops.append(boot)
         for _ in range(ncalls):
+            if r.random() < cfg.get("poison_rate", 0):
+                # fault in the history: an aggregation over an object column with unhashable /
+                # unorderable cells fails on either path; whatever it leaves behind must not
+                # influence later calls
+                n = r.choice([2, 3, 5])
+                hid[0] += 1
+                ops.append({"ev": "call", "g": [r.randrange(2) for _ in range(n)], "dtype": "object",
+                            "na_mode": "none",
+                            "cols": {"x": {"dtype": "object", "values": [[i, "u"] for i in range(n)]}},
+                            "helpers": [{"name": "y0", "fn": r.choice(["mode", "count_unique", "max", "sum"]),
+                                         "col": "x", "kwargs": {}, "id": hid[0], "dtype": "object"}]})
             c = gen_call(r, cfg, hid, pool)
             ops.append(c)
             if r.random() < 0.4 and "z" not in c["cols"]:
@@ -541,6 +553,8 @@ def execute(trace, prop="C08"):
                     for h in call["helpers"]:
                         if h["fn"] in ("std", "var") and h.get("kwargs", {}).get("ddof"):
                             continue
+                        if (h.get("dtype") or call["dtype"]) == "object":
+                            continue        # not eligible for acceleration: no kernel is compiled
                         ks = (KERNEL[h["fn"]], h.get("dtype") or call["dtype"])
                         if ks not in seen_this_life:
                             for prev in seen_this_life:
